@@ -570,6 +570,29 @@ theorem toC04 (h : InvHyp cb cu ax ay) (hay : ∀ y, f.eps < ay y) {by_ : Fin m 
   ⟨hw.hb, hw.hu, hw.hs, hw.ha0, hw.ha, bI_nonneg h hay, uI_nonneg h hay, sum_bI h,
     fun x => le_of_lt (h.hax0 x), h.hax⟩
 
+/-- with every `a(y)` above the guard band and every `min_y P(y|x)/a(y)` above it too, the weighted
+    proportional uncertainty is 1 whatever the uncertainties of the conditionals are -/
+theorem wprop_eq_one (h : InvHyp cb cu ax ay) (hay : ∀ y, f.eps < ay y)
+    (hall : ∀ x, f.eps < maxUyx cb cu ay x) : wprop f cb cu ay = 1 := by
+  have hpos : ∀ x, 0 < uyx f cb cu ay x := fun x => by
+    rw [uyx_eq_maxUyx h hay x]; exact lt_trans (XQ.eps_pos f) (hall x)
+  have hS : 0 < uyxSum f cb cu ay :=
+    Finset.sum_pos (fun x _ => hpos x) ⟨⟨0, h.npos⟩, Finset.mem_univ _⟩
+  have hw : ∀ x, weightedU f cb cu ay x = uyx f cb cu ay x / uyxSum f cb cu ay := by
+    intro x
+    have hM : 0 < maxUyx cb cu ay x := lt_trans (XQ.eps_pos f) (hall x)
+    unfold weightedU weights
+    rw [if_neg (by rw [abs_of_pos hM]; exact not_le.mpr (hall x)), if_neg (ne_of_gt hS),
+      uyx_eq_maxUyx h hay x, mul_div_assoc, div_self (ne_of_gt hM), mul_one]
+  unfold wprop
+  simp only [hw, ← Finset.sum_div]
+  exact div_self (ne_of_gt hS)
+
+/-- … and 0 when every conditional has `min_y P(y|x)/a(y)` within ε of zero -/
+theorem wprop_eq_zero (hall : ∀ x, |maxUyx cb cu ay x| ≤ f.eps) : wprop f cb cu ay = 0 := by
+  unfold wprop weightedU
+  simp [hall]
+
 theorem eps_lt_quarter (f : Fmt) : f.eps < 1 / 4 := by
   cases f <;> norm_num [Fmt.eps, Fmt.mant]
 
